@@ -59,7 +59,14 @@ def _density_case(case):
     radii = sorted(set(float(r) for r in radii))
     n = 0
     nontriv = []
-    arr = np.asarray(m.density(np.array(radii)))
+    given = np.array(radii, dtype=np.float64)
+    arr = np.asarray(m.density(given))
+    # the radii handed in are the caller's: they stay as they were, and asking again gives the same densities
+    again = np.asarray(m.density(given))
+    if not np.array_equal(given, np.array(radii, dtype=np.float64)) or not np.array_equal(arr, again, equal_nan=True):
+        fails.append({"check": "density-argument-modified", "what": "%s density(array) changed the array it was given, or a second call "
+                                                                    "with the same array answers differently" % case["model"],
+                      "tags": {"group": "density-argument-modified"}})
     if arr.shape != (len(radii),):
         fails.append({"check": "density-shape", "what": "density(array of %d) has shape %r" % (len(radii), arr.shape)})
         arr = None
